@@ -17,7 +17,7 @@ type refModel struct {
 	batchCommitted bool
 	closedDump     map[string][]byte // dump taken right before Close
 	backups        map[string]map[string][]byte
-	crashed        bool // after a crash the reference map is re-seeded from the recovered state
+	crashed        bool                         // after a crash the reference map is re-seeded from the recovered state
 	maps           map[string]map[string][]byte // reference map of every logical directory
 	curDir         string
 	pending        string // property to blame at the next dump
